@@ -8,6 +8,8 @@ pub struct Mock {
     pub log: Vec<String>,
     pub seen: Vec<String>,       // dump of the payload each handler received
     pub fail: Option<(String, u8)>,
+    pub canned: Option<Response>,    // what the handler of that kind returns (else a minimal value)
+    pub returned: Option<String>,    // Debug of what the last handler returned
 }
 
 fn err_of(code: u8) -> Error {
@@ -43,7 +45,7 @@ pub fn status_of(k: u8) -> ctap1::Error {
 
 impl Mock {
     pub fn new(fail: Option<(String, u8)>) -> Self {
-        Mock { log: vec![], seen: vec![], fail }
+        Mock { log: vec![], seen: vec![], fail, canned: None, returned: None }
     }
     fn enter(&mut self, name: &str, payload: Option<V>) -> Result<(), Error> {
         self.log.push(name.to_string());
@@ -56,41 +58,46 @@ impl Mock {
 }
 
 macro_rules! min {
-    ($variant:literal, $pat:path) => {
-        match glue::min_response($variant) {
-            Some($pat(r)) => r,
-            _ => panic!("harness: no minimal response"),
-        }
-    };
+    ($self:ident, $variant:literal, $pat:path) => {{
+        let r = match &$self.canned {
+            Some($pat(r)) => r.clone(),
+            _ => match glue::min_response($variant) {
+                Some($pat(r)) => r,
+                _ => panic!("harness: no minimal response"),
+            },
+        };
+        $self.returned = Some(format!("{:?}", r));
+        r
+    }};
 }
 
 impl ctap2::Authenticator for Mock {
     fn get_info(&mut self) -> ctap2::get_info::Response {
         let _ = self.enter("get_info", None);
-        min!("GetInfo", Response::GetInfo)
+        min!(self, "GetInfo", Response::GetInfo)
     }
     fn make_credential(&mut self, request: &ctap2::make_credential::Request) -> ctap2::Result<ctap2::make_credential::Response> {
         self.enter("make_credential", Some(glue::dump_payload_make_credential(request)))?;
-        Ok(min!("MakeCredential", Response::MakeCredential))
+        Ok(min!(self, "MakeCredential", Response::MakeCredential))
     }
     fn get_assertion(&mut self, request: &ctap2::get_assertion::Request) -> ctap2::Result<ctap2::get_assertion::Response> {
         self.enter("get_assertion", Some(glue::dump_payload_get_assertion(request)))?;
-        Ok(min!("GetAssertion", Response::GetAssertion))
+        Ok(min!(self, "GetAssertion", Response::GetAssertion))
     }
     fn get_next_assertion(&mut self) -> ctap2::Result<ctap2::get_assertion::Response> {
         self.enter("get_next_assertion", None)?;
-        Ok(min!("GetAssertion", Response::GetAssertion))
+        Ok(min!(self, "GetAssertion", Response::GetAssertion))
     }
     fn reset(&mut self) -> ctap2::Result<()> {
         self.enter("reset", None)
     }
     fn client_pin(&mut self, request: &ctap2::client_pin::Request) -> ctap2::Result<ctap2::client_pin::Response> {
         self.enter("client_pin", Some(glue::dump_payload_client_pin(request)))?;
-        Ok(min!("ClientPin", Response::ClientPin))
+        Ok(min!(self, "ClientPin", Response::ClientPin))
     }
     fn credential_management(&mut self, request: &ctap2::credential_management::Request) -> ctap2::Result<ctap2::credential_management::Response> {
         self.enter("credential_management", Some(glue::dump_payload_credential_management(request)))?;
-        Ok(min!("CredentialManagement", Response::CredentialManagement))
+        Ok(min!(self, "CredentialManagement", Response::CredentialManagement))
     }
     fn selection(&mut self) -> ctap2::Result<()> {
         self.enter("selection", None)
@@ -100,7 +107,7 @@ impl ctap2::Authenticator for Mock {
     }
     fn large_blobs(&mut self, request: &ctap2::large_blobs::Request) -> ctap2::Result<ctap2::large_blobs::Response> {
         self.enter("large_blobs", Some(glue::dump_payload_large_blobs(request)))?;
-        Ok(min!("LargeBlobs", Response::LargeBlobs))
+        Ok(min!(self, "LargeBlobs", Response::LargeBlobs))
     }
 }
 
@@ -132,5 +139,34 @@ impl ctap1::Authenticator for Mock {
         self.seen.push(format!("{}{}{}", crate::val::hex(request.challenge), crate::val::hex(request.app_id), crate::val::hex(request.key_handle)));
         if let Some((m, k)) = &self.fail { if m == "authenticate" { return Err(status_of(*k)); } }
         Ok(ctap1::authenticate::Response { user_presence: 1, count: 7, signature: Default::default() })
+    }
+}
+
+/// an authenticator that overrides the *provided* dispatch methods: the generic entry point `Rpc::call`
+/// must go through them (an implementation may wrap the dispatcher, e.g. to add locking or accounting)
+pub struct Overriding(pub Mock);
+
+impl ctap2::Authenticator for Overriding {
+    fn get_info(&mut self) -> ctap2::get_info::Response { self.0.get_info() }
+    fn make_credential(&mut self, r: &ctap2::make_credential::Request) -> ctap2::Result<ctap2::make_credential::Response> { self.0.make_credential(r) }
+    fn get_assertion(&mut self, r: &ctap2::get_assertion::Request) -> ctap2::Result<ctap2::get_assertion::Response> { self.0.get_assertion(r) }
+    fn get_next_assertion(&mut self) -> ctap2::Result<ctap2::get_assertion::Response> { self.0.get_next_assertion() }
+    fn reset(&mut self) -> ctap2::Result<()> { self.0.reset() }
+    fn client_pin(&mut self, r: &ctap2::client_pin::Request) -> ctap2::Result<ctap2::client_pin::Response> { self.0.client_pin(r) }
+    fn credential_management(&mut self, r: &ctap2::credential_management::Request) -> ctap2::Result<ctap2::credential_management::Response> { self.0.credential_management(r) }
+    fn selection(&mut self) -> ctap2::Result<()> { self.0.selection() }
+    fn vendor(&mut self, op: ctap2::VendorOperation) -> ctap2::Result<()> { self.0.vendor(op) }
+    fn call_ctap2(&mut self, _request: &ctap2::Request<'_>) -> ctap2::Result<ctap2::Response> {
+        self.0.log.push("call_ctap2-override".into());
+        Ok(ctap2::Response::Selection)
+    }
+}
+
+impl ctap1::Authenticator for Overriding {
+    fn register(&mut self, r: &ctap1::register::Request<'_>) -> ctap1::Result<ctap1::register::Response> { self.0.register(r) }
+    fn authenticate(&mut self, r: &ctap1::authenticate::Request<'_>) -> ctap1::Result<ctap1::authenticate::Response> { self.0.authenticate(r) }
+    fn call_ctap1(&mut self, _request: &ctap1::Request<'_>) -> ctap1::Result<ctap1::Response> {
+        self.0.log.push("call_ctap1-override".into());
+        Ok(ctap1::Response::Version(*b"U2F_V2"))
     }
 }
